@@ -18,7 +18,7 @@ RULE = ("(1) schedules: the same data directory is run with RAYON_NUM_THREADS in
         "seeded with stale *.tmp files, earlier results under the same and other names) and one data directory (index reopened up to 10 "
         "times): results unchanged, SHA-256 of blk*.dat/xor.dat and the key/value dump of the index identical before/after, strace spec "
         "'no open-for-write/unlink/rename/truncate on blk*.dat or xor.dat'. (3) thorough: ThreadSanitizer build over the parallel "
-        "workload and a build without the verif feature compared with the hooked build on all five callbacks. (4) suspended runs: the process is stopped (SIGSTOP) for more than 10 s while it delivers blocks, so the time-driven progress report of the driver runs; results must equal the undisturbed run and the model. Schedule chains contain twins of the record-setting transaction (ties for biggest value / size). distinct = distinct schedules (thread->task maps) + (history kind, callback) signatures")
+        "workload and a build without the verif feature compared with the hooked build on all five callbacks. (4) suspended runs: the process is stopped (SIGSTOP) for more than 10 s while it delivers blocks, so the time-driven progress report of the driver runs; results must equal the undisturbed run and the model. Schedule chains contain twins of the record-setting transaction (ties for biggest value / size). (5) concurrent instances: instance B (another data directory and dump folder, same cwd / TMPDIR / HOME) runs completely while instance A is stopped in mid-run; both results must equal their models. distinct = distinct schedules (thread->task maps) + (history kind, callback) signatures")
 
 THREADS = [1, 2, 3, 8, 16, 64]
 
@@ -483,8 +483,45 @@ def suspend_case(spec):
             "sample": {"kind": "suspended", "coin": coin, "callback": cbname, "pauses": list(spec["pauses"]), "hit": hit, "progress_reports": progress}}
 
 
+def concurrent_case(spec):
+    """Two instances at the same time: instance A is stopped (SIGSTOP) while it delivers blocks, instance B - same callback, another data
+    directory and another dump folder, the same working directory, TMPDIR and HOME - runs from start to end, then A continues. Each
+    result depends on its own data directory and options only."""
+    coin_a, coin_b, cbname = spec["coin"], spec["coin_b"], spec["callback"]
+    rng = random.Random("C13c|%s|%s" % (spec["seed"], spec["n"]))
+    chain_a = gen.simple_chain(rng, coin_a, spec["blocks"], max_tx=3)
+    chain_b = gen.simple_chain(rng, coin_b, 40, max_tx=3)
+    work = harness.fresh(os.path.join(spec["work"], "c%d" % spec["n"]))
+    da, db = os.path.join(work, "da"), os.path.join(work, "db")
+    datadir.write_datadir(da, COINS[coin_a], harness.simple_layout(chain_a))
+    datadir.write_datadir(db, COINS[coin_b], harness.simple_layout(chain_b))
+    binary = core.build("release")
+    tmpd = harness.fresh(os.path.join(work, "tmp"))
+    env = {"TMPDIR": tmpd, "HOME": tmpd, "RAYON_NUM_THREADS": "2"}
+    dump_a, dump_b = harness.fresh(os.path.join(work, "oa")), harness.fresh(os.path.join(work, "ob"))
+    box = {}
+
+    def other_instance():
+        box["p"] = core.run(harness.cli(binary, db, coin_b, cbname, dump_b), env=env, cwd=work, timeout=300)
+    pa, hit = core.run_suspended(harness.cli(binary, da, coin_a, cbname, dump_a), dict(env, RBP_VERIF_JITTER="5"), os.path.join(work, "ev.jsonl"),
+                                 pauses=(0.05,), while_stopped=other_instance, cwd=work, timeout=600)
+    if pa.timed_out or "p" not in box and hit:
+        raise Inconclusive("watchdog fired (concurrent instances)")
+    v, counters = [], {"runs": 1 + (1 if "p" in box else 0), "concurrent_pairs": 1, "concurrent_pairs_overlapping": 1 if hit else 0}
+    what = "%s, instance B (%s, 40 blocks) ran completely while instance A (%s, %d blocks) was stopped in mid-run" % (cbname, coin_b, coin_a, spec["blocks"])
+    for name, p, dump, chain, coin in (("A", pa, dump_a, chain_a, coin_a),) + ((("B", box["p"], dump_b, chain_b, coin_b),) if "p" in box else ()):
+        bad = model_check(cbname, p, dump, chain, coin)
+        v.extend(viol("concurrent:" + sig, "instance %s: %s [%s]" % (name, det, what)) for sig, det in bad[:1])
+    left = os.listdir(tmpd)
+    counters["files_left_in_TMPDIR"] = len(left)
+    shutil.rmtree(work, ignore_errors=True)
+    return {"evaluations": counters["runs"], "violations": v, "counters": counters,
+            "shapes": ["concurrent|%s|%s" % (cbname, "overlap" if hit else "no-overlap")],
+            "sample": {"kind": "concurrent", "callback": cbname, "coins": [coin_a, coin_b], "overlapped": bool(hit)}}
+
+
 def dispatch(spec):
-    return {"env": env_case, "sched": sched_case, "history": history_case, "tsan": tsan_case, "nohooks": nohooks_case, "extreme": extreme_case, "suspend": suspend_case}[spec["case"]](spec)
+    return {"env": env_case, "sched": sched_case, "history": history_case, "tsan": tsan_case, "nohooks": nohooks_case, "extreme": extreme_case, "suspend": suspend_case, "concurrent": concurrent_case}[spec["case"]](spec)
 
 
 def plan(chk):
@@ -523,6 +560,10 @@ def plan(chk):
         ranged = i >= 5
         specs.append(dict(case="suspend", coin=COIN_NAMES[(chk.seed + i) % 8], seed=chk.seed, n=n, callback=cbname, blocks=2400,
                           start=(700 if ranged else None), end=(2100 if ranged and i % 2 else None), pauses=[10.4, 10.4] if (chk.thorough and i % 2) else [10.4]))
+    for i, cbname in enumerate(all_cb * (2 if chk.thorough else 1)):
+        n += 1
+        specs.append(dict(case="concurrent", coin=COIN_NAMES[(chk.seed + i) % 8], coin_b=COIN_NAMES[(chk.seed + i + (3 if i < 5 else 0)) % 8], seed=chk.seed, n=n,
+                          callback=cbname, blocks=2000))
     if chk.thorough:
         for i in range(3):
             n += 1
@@ -547,8 +588,8 @@ def main():
     for sp in specs:
         sp["work"] = chk.workdir
     # the contention cases are themselves parallel programs: run the schedule cases a few at a time
-    sched = [s for s in specs if s["case"] not in ("history", "suspend")]
-    hist = [s for s in specs if s["case"] in ("history", "suspend")]
+    sched = [s for s in specs if s["case"] not in ("history", "suspend", "concurrent")]
+    hist = [s for s in specs if s["case"] in ("history", "suspend", "concurrent")]
     hist.sort(key=lambda s: s["case"] != "suspend")
     for res in core.parallel(dispatch, sched, jobs=4):
         chk.absorb(res)
@@ -561,11 +602,11 @@ def main():
         chk.shape("no-parallel-split-observed")
         chk.shape("implementation-appears-sequential")
     chk.finish(RULE, floor={"cross_run_comparisons": 5, "rerun_comparisons": 6, "input_integrity_checks": 6,
-                            "trace_events_seen": 50, "h3_events": 10000, "suspended_runs_hit": 3, "progress_reports_observed": 3},
+                            "trace_events_seen": 50, "h3_events": 10000, "suspended_runs_hit": 3, "progress_reports_observed": 3, "concurrent_pairs_overlapping": 3},
                assumptions=["the jitter hook sleeps inside a task (like a slow script), it cannot create interleavings the program cannot have",
                             "a run in which one worker evaluated every transaction of every block does not count as a distinct schedule",
                             "index integrity is judged on the key/value content (ldbtool dump of a copy), not on LevelDB's file layout, which legitimately changes on open"])
 
 
 def replay(spec):
-    core.replay_case("C13", {"env": env_case, "sched": sched_case, "history": history_case, "tsan": tsan_case, "nohooks": nohooks_case, "extreme": extreme_case, "suspend": suspend_case}, spec)
+    core.replay_case("C13", {"env": env_case, "sched": sched_case, "history": history_case, "tsan": tsan_case, "nohooks": nohooks_case, "extreme": extreme_case, "suspend": suspend_case, "concurrent": concurrent_case}, spec)
